@@ -226,6 +226,31 @@ def run(ctx):
                   "mb_optical_theorem": quant.mb(abs(ext_fwd - cs[2]) / abs(cs[2])),
                   "mb_sca_integral": quant.mb(abs(sca_i - cs[0]) / abs(cs[0])), "mb_g_integral": quant.mb(abs(g_i - cs[3]))}
             traces.append([ev])
+    # one theory object for consecutive, nearly identical particles: every answer is the fresh object's answer
+    near = [(Sphere(n=1.59 + 1e-5j, r=0.5), Sphere(n=1.59, r=0.5)),
+            (Sphere(n=1.59, r=0.5), Sphere(n=1.59 + 1e-6j, r=0.5)),
+            (Sphere(n=1.59, r=5.0), Sphere(n=1.59, r=5.0 * (1 + 4e-6))),
+            (Sphere(n=[1.59, 1.45], r=[0.3, 0.5]), Sphere(n=[1.59, 1.45 + 1e-6j], r=[0.3, 0.5 * (1 + 1e-6)]))]
+    fwd_ = detector_points(theta=np.array([0.0, 0.7]), phi=np.array([0.0, 1.0]), r=1e4)
+    for k_, (s_a, s_b) in enumerate(near):
+        for first, second in ((s_a, s_b), (s_b, s_a)):
+            ctx.case(("shared_theory", k_, repr(first.n)), nontrivial=True)
+            try:
+                shared = Mie()
+                calc_cross_sections(first, illum_polarization=(1, 0), theory=shared, **opts)
+                calc_scat_matrix(fwd_, first, theory=shared, **opts)
+                got_cs = calc_cross_sections(second, illum_polarization=(1, 0), theory=shared, **opts).values
+                got_S = calc_scat_matrix(fwd_, second, theory=shared, **opts).values
+                want_cs = calc_cross_sections(second, illum_polarization=(1, 0), theory=Mie(), **opts).values
+                want_S = calc_scat_matrix(fwd_, second, theory=Mie(), **opts).values
+            except Exception as e:
+                ctx.violation("shared_theory/exception", {"pair": k_, "exc": repr(e)[:200]})
+                continue
+            if not (np.array_equal(got_cs, want_cs) and np.array_equal(got_S, want_S)):
+                ctx.violation("shared_theory/answer_depends_on_previous_particle",
+                              {"pair": k_, "second": repr(second.n), "cross_sections": [got_cs.tolist(), want_cs.tolist()]})
+            else:
+                ctx.trace_ok()
     verdicts = tracemod.validate(ctx, "CrossSectionsTrace", traces)
     worst = {}
     for tr, (acc, line, clauses) in zip(traces, verdicts):
